@@ -3,6 +3,7 @@
 package engines
 
 import (
+	"bngvet/internal/cfront"
 	"bngvet/internal/load"
 	"bngvet/internal/report"
 	"go/token"
@@ -20,7 +21,11 @@ type Ctx struct {
 	Verif string
 
 	modFuncs []*ssa.Function
+	tus      []*cfront.TU
 }
+
+// NoGo lists properties whose checker only needs the C front end (the Go program is not loaded for them).
+var NoGo = map[string]bool{}
 
 // Registry maps property ids to their checkers.
 var Registry = map[string]func(*Ctx){}
